@@ -48,14 +48,41 @@ class SkipSection(AnalysisError):
 
 
 class _Section:
-    def __init__(self, ck, label):
+    def __init__(self, ck, label, backed_by=None, prefix=None):
         self.ck = ck
         self.label = label
+        self.backed_by = backed_by      # name of an abstract run (ck.backing[name] is True when it passed)
+        self.prefix = prefix            # constructs (prefix of the key) that this run decides
 
     def __enter__(self):
+        self.n0 = len(self.ck.obligations)
+        self.e0 = len(self.ck.analysis_errors)
         return self
 
+    def _back(self, et, ev):
+        """The shape rules of this section are the statement-naming back-up of an abstract run that
+        passed: what they cannot read on this layout is noted, not reported."""
+        ck = self.ck
+        if not (self.backed_by and ck.backing.get(self.backed_by) is True):
+            return False
+        for o in ck.obligations[self.n0:]:
+            if not o['ok'] and (self.prefix is None or o['construct'].startswith(self.prefix)):
+                o['ok'] = True
+                o['msg'] = (f"[layout not recognised by the shape rule; decided by the abstract run of "
+                            f"{self.backed_by}] " + o['msg'])
+                o.pop('witness', None)
+        swallowed = et is not None and issubclass(et, (AnalysisError, NameError))
+        if swallowed:
+            ck.note(f"{self.label}: shape rule not applicable to this layout ({ev}); decided by the abstract "
+                    f"run of {self.backed_by}")
+        for rid, reason in ck.analysis_errors[self.e0:]:
+            ck.note(f"{rid}: {reason} (abstention of a shape rule; decided by the abstract run of {self.backed_by})")
+        del ck.analysis_errors[self.e0:]
+        return swallowed
+
     def __exit__(self, et, ev, tb):
+        if self._back(et, ev):
+            return True
         if et is None:
             return False
         ck = self.ck
@@ -92,6 +119,7 @@ class Check:
         self.obligations: list[dict] = []
         self.analysis_errors: list[tuple[str, str]] = []
         self.aborted_sections: list[str] = []
+        self.backing: dict[str, bool] = {}
         self.notes: list[str] = []
         self.undecided: list[str] = []
         self.explanation = ''
@@ -154,12 +182,12 @@ class Check:
             self.rules[rid] = Rule(rid, sentence, model, min_instances)
         return rid
 
-    def section(self, label: str):
+    def section(self, label: str, backed_by: str | None = None, prefix: str | None = None):
         """Context manager around one rule section of a property's run(): an abstention of the
         section (AnalysisError: vanished anchor, unknown idiom) is recorded and the following
         sections still run, so that a violation they find is reported (exit 1 wins over exit 2).
         A section that needs a result of an abstained one (NameError) abstains too."""
-        return _Section(self, label)
+        return _Section(self, label, backed_by, prefix)
 
     def need(self, rule: str, cond, reason: str) -> None:
         """An anchor / idiom precondition of the analysis itself (not of edzed)."""
